@@ -15,11 +15,12 @@ import (
 
 // Op is one step of a compute function (Coq: Reactive.Rerunner.op).
 type Op struct {
-	Kind string `json:"k"`             // dep | timer | cache | fail | retry
-	Slot int    `json:"slot"`          // dep
-	Key  int    `json:"key"`           // cache
-	Body []Op   `json:"body"`          // cache
-	Alt  bool   `json:"alt,omitempty"` // cache: the call is left out on every second compute of the rerunner
+	Branches [][]Op `json:"branches,omitempty"` // par: goroutines inside the compute function
+	Kind     string `json:"k"`                  // dep | timer | cache | fail | retry
+	Slot     int    `json:"slot"`               // dep
+	Key      int    `json:"key"`                // cache
+	Body     []Op   `json:"body"`               // cache
+	Alt      bool   `json:"alt,omitempty"`      // cache: the call is left out on every second compute of the rerunner
 }
 
 type RR struct {
@@ -60,26 +61,40 @@ type Case struct {
 
 // ---- generation ----
 
-func genProg(r *vh.Rng, slots int, depth int, path []int, top bool) []Op {
+// HooksKeyLock says whether the tree under test has the observation points of the per-key lock of
+// reactive.Cache (patch C04-hooks-2); without them no goroutines are started inside compute functions
+// (the lock is then never contended and its events are synthesised).
+var HooksKeyLock = false
+
+// genProg draws a compute function.  Keys grow strictly along the nesting of Cache calls (a fixed lock order:
+// no key inside itself, no two branches taking two keys in opposite orders – both would deadlock on the
+// per-key lock, a usage error); sibling calls and parallel branches may use the same key.
+func genProg(r *vh.Rng, slots int, depth int, minKey int, top bool) []Op {
 	n := 1 + r.Intn(3)
 	var p []Op
 	for i := 0; i < n; i++ {
 		k := r.Intn(100)
 		switch {
-		case k < 45 || depth == 0 && k < 80:
+		case k < 40 || depth == 0 && k < 80:
 			p = append(p, Op{Kind: "dep", Slot: r.Intn(slots)})
-		case k < 80:
-			// a key must not be nested inside itself (the per-key lock of reactive.Cache would deadlock:
-			// a usage error, not a defect); the same key at sibling positions is allowed and interesting
-			key := r.Intn(4)
-			for tries := 0; tries < 8 && inPath(path, key); tries++ {
-				key = (key + 1) % 8
-			}
-			if inPath(path, key) {
+		case k < 70:
+			key := minKey + r.Intn(2)
+			if key > 7 {
 				p = append(p, Op{Kind: "dep", Slot: r.Intn(slots)})
 				continue
 			}
-			p = append(p, Op{Kind: "cache", Key: key, Alt: r.Chance(20), Body: genProg(r, slots, depth-1, append(append([]int{}, path...), key), false)})
+			p = append(p, Op{Kind: "cache", Key: key, Alt: r.Chance(20), Body: genProg(r, slots, depth-1, key+1, false)})
+		case k < 80:
+			if !HooksKeyLock {
+				p = append(p, Op{Kind: "dep", Slot: r.Intn(slots)})
+				continue
+			}
+			nb := 2 + r.Intn(2)
+			var bs [][]Op
+			for b := 0; b < nb; b++ {
+				bs = append(bs, genProg(r, slots, depth-1, minKey, false))
+			}
+			p = append(p, Op{Kind: "par", Branches: bs})
 		case k < 88:
 			p = append(p, Op{Kind: "timer"})
 		case k < 94:
@@ -98,6 +113,9 @@ func genProg(r *vh.Rng, slots int, depth int, path []int, top bool) []Op {
 					has = true
 				}
 				walk(o.Body)
+				for _, b := range o.Branches {
+					walk(b)
+				}
 			}
 		}
 		walk(p)
@@ -154,7 +172,7 @@ func Gen(r *vh.Rng, flavour string) Case {
 		maxDepth = 1 + r.Intn(3)
 	}
 	for i := 0; i < nr; i++ {
-		c.RRs = append(c.RRs, RR{Prog: genProg(r, c.Slots, maxDepth, nil, true), Spawn: r.Chance(60), IntervalUs: []int{0, 100, 200, 2000}[r.Intn(4)]})
+		c.RRs = append(c.RRs, RR{Prog: genProg(r, c.Slots, maxDepth, 0, true), Spawn: r.Chance(60), IntervalUs: []int{0, 100, 200, 2000}[r.Intn(4)]})
 	}
 	stopPct := 8
 	if flavour == "C04" {
@@ -198,6 +216,12 @@ func coqOps(p []Op) string {
 			xs[i] = "OFail"
 		case "retry":
 			xs[i] = "ORetry"
+		case "par":
+			bs := make([]string, len(o.Branches))
+			for k, b := range o.Branches {
+				bs[k] = coqOps(b)
+			}
+			xs[i] = "OPar [" + strings.Join(bs, "; ") + "]"
 		default:
 			panic("op " + o.Kind)
 		}
@@ -218,6 +242,9 @@ func (c *Case) sharedSlots() int {
 				users[o.Slot][ri] = true
 			}
 			walk(o.Body, ri)
+			for _, b := range o.Branches {
+				walk(b, ri)
+			}
 		}
 	}
 	for i, r := range c.RRs {
@@ -242,6 +269,9 @@ func (c *Case) shape() string {
 		for _, o := range p {
 			if o.Kind == "cache" {
 				walk(o.Body, d+1)
+			}
+			for _, b := range o.Branches {
+				walk(b, d)
 			}
 		}
 	}
